@@ -1,3 +1,542 @@
 package main
 
-func c02V1Subsequence(c *Ctx) {}
+import (
+	"fmt"
+	"go/types"
+	"strings"
+
+	"golang.org/x/tools/go/ssa"
+)
+
+func init() {
+	register(&Property{
+		ID:  "C02",
+		Run: runC02,
+		Explanation: "Exactly-once, correctly tagged, FIFO delivery (safety half): X1 the channel registered under key p is the user's channel paired with p (range pair over Opts.Inputs, AddInput arguments through the command channel); X2/X6 every receive from an input and every send on the output lies in code that only the single scheduler goroutine can execute; X3 a typestate dataflow over the SSA CFG with inlining shows that every value received with ok=true reaches exactly one successful output send before the next receive or return (v1: unless a stop clause is taken), and nothing is sent with no item in hand; X4 the table key, the Priority field of the value sent and the key passed down are the same SSA value; X5 the received value flows nowhere but into the Item field of the value sent; X7 the simplified disciplines' handlers call Handle exactly once per received item and then release its priority exactly once. Go channels are FIFO, so a single mover holding at most one item preserves per-input order.",
+		NotDecided: []string{"eventual delivery (liveness) - necessary conditions only under C06"},
+	})
+}
+
+func isInputChanType(t types.Type) bool {
+	ch, ok := t.Underlying().(*types.Chan)
+	if !ok || ch.Dir() != types.RecvOnly {
+		return false
+	}
+	_, isTP := ch.Elem().(*types.TypeParam)
+	return isTP
+}
+
+func runC02(c *Ctx) {
+	r := c.R
+	r.Doc("X1", "registration: the channel stored under key p in the input table is the user's channel paired with p", 3)
+	r.Doc("X2", "every receive from an input channel executes only in the scheduler goroutine", 4)
+	r.Doc("X3", "every item received with ok reaches exactly one successful output send before the next receive/return; no send without an item; closed input: no send", 4)
+	r.Doc("X4", "table key == Priority of the value sent (same SSA value)", 4)
+	r.Doc("X5", "the received value flows only into the Item field of the value sent", 4)
+	r.Doc("X6", "every send on the output executes only in the scheduler goroutine and is reached by an X3 flow", 2)
+	r.Doc("X7", "simplified disciplines: per received item exactly one Handle(item) then exactly one release of its priority", 2)
+	c02priority(c, c.V1, "")
+	c02priority(c, c.V2, "")
+}
+
+// c02V1Subsequence re-uses the v1 rules under C16/S7.
+func c02V1Subsequence(c *Ctx) {
+	c.R.Doc("S7", "(= C02 rules X2-X6 on v1) what is delivered is an in-order duplicate-free subsequence of what was written", 9)
+	c02priority(c, c.V1, "S7")
+}
+
+func c02priority(c *Ctx, p *Prog, as string) {
+	r := c.R
+	rule := func(x string) (string, string) {
+		if as != "" {
+			return as, x + ":"
+		}
+		return x, ""
+	}
+	d := p.Disc("priority.Discipline")
+	if d == nil || len(d.Gos) != 1 {
+		r.Fail("X2", p.Name+":priority.Discipline", "-", "UNRESOLVED-ANCHOR: priority discipline or its single scheduler goroutine not found")
+		return
+	}
+	entry := d.Gos[0].Entry
+	sched := "G:" + p.FnKey(entry)
+	ci := p.Contexts()
+	outRole := map[string]bool{"field:output": true, "field:opts.Output": true}
+
+	// ---- X1
+	if as == "" {
+		c02registration(c, p)
+	}
+
+	// ---- sources
+	var srcFns []*ssa.Function
+	for _, fn := range p.Funcs() {
+		rel, _ := p.Rel(fn)
+		if rel != "priority" {
+			continue
+		}
+		n := 0
+		for _, rs := range p.RecvSites(fn) {
+			if !isInputChanType(rs.Chan.Type()) {
+				continue
+			}
+			n++
+			// X2
+			rn, pre := rule("X2")
+			key := fmt.Sprintf("%s%s#recv.%d", pre, p.FnKey(fn), n)
+			ctxs := ci.Of(rs.In)
+			ok := len(ctxs) > 0
+			for _, x := range ctxs {
+				if x != sched {
+					ok = false
+				}
+			}
+			r.Check(ok, rn, key, rs.Pos(p), "scheduler goroutine only", "input channel is read outside the scheduler goroutine (contexts: "+strings.Join(shortCtxList(ctxs), ", ")+"): an item can be consumed without being delivered, or two readers reorder items")
+			// X5
+			if rs.Val != nil {
+				rn5, pre5 := rule("X5")
+				esc := p.valueEscapes(rs.Val, func(user ssa.Instruction, v ssa.Value) bool {
+					switch u := user.(type) {
+					case *ssa.Send:
+						return outRole[p.chanRole(u.Chan)] && u.X == v
+					case *ssa.Select:
+						for _, st := range u.States {
+							if st.Send == v && outRole[p.chanRole(st.Chan)] {
+								return true
+							}
+						}
+					}
+					return false
+				})
+				r.Check(len(esc) == 0, rn5, fmt.Sprintf("%s%s#recv.%d", pre5, p.FnKey(fn), n), rs.Pos(p), "item flows only into the value sent on the output", "received item is also "+strings.Join(esc, "; "))
+			}
+		}
+		if n > 0 {
+			srcFns = append(srcFns, fn)
+		}
+	}
+
+	// ---- X3/X4 per source function
+	visitedSinks := map[ssa.Instruction]bool{}
+	for _, fn := range srcFns {
+		r.Funcs[p.FnKey(fn)] = true
+		var x4 []string
+		cfg := &ItemFlowConfig{
+			P:        p,
+			IsSource: func(rs *RecvSite) bool { return isInputChanType(rs.Chan.Type()) },
+			SinkInstr: func(fr *Frame, in ssa.Instruction) (bool, ssa.Value) {
+				if s, ok := in.(*ssa.Send); ok && outRole[p.chanRole(s.Chan)] {
+					return true, s.X
+				}
+				return false, nil
+			},
+			SinkEdge: func(fr *Frame, from *ssa.BasicBlock, succ int) (bool, ssa.Value) {
+				if _, cs, _ := p.CaseOnEdge(from, succ); cs != nil && cs.State.Dir == types.SendOnly && outRole[p.chanRole(cs.State.Chan)] {
+					return true, cs.State.Send
+				}
+				return false, nil
+			},
+			StopEdge: func(fr *Frame, from *ssa.BasicBlock, succ int) bool {
+				if _, cs, _ := p.CaseOnEdge(from, succ); cs != nil {
+					return strings.HasPrefix(p.stopRoleOf(cs.State.Chan), "stop:")
+				}
+				return false
+			},
+			ItemOf: func(fr *Frame, consumed ssa.Value) *Sym {
+				return symField(p.SymFrame(fr, consumed), "Item")
+			},
+			OnConsume: func(fr *Frame, src *RecvSite, consumed ssa.Value, where ssa.Instruction) []string {
+				tag := symField(p.SymFrame(fr, consumed), "Priority").StripInst()
+				chs := p.Sym(src.Chan)
+				key := tableKeyOf(chs)
+				if key == nil {
+					m := fmt.Sprintf("UNDECIDED: input channel expression %s at %s is not a lookup in the input table", chs, src.Pos(p))
+					x4 = append(x4, m)
+					return nil
+				}
+				if tag.String() != key.String() {
+					x4 = append(x4, fmt.Sprintf("item read at %s from the channel registered under %s is sent at %s tagged %s", src.Pos(p), key, p.InstrPos(where), tag))
+				}
+				return nil
+			},
+		}
+		res := RunItemFlow(cfg, fn)
+		for s := range res.Sinks {
+			visitedSinks[s] = true
+		}
+		rn, pre := rule("X3")
+		r.Check(len(res.Problems) == 0, rn, pre+p.FnKey(fn), p.Pos(fn.Pos()), fmt.Sprintf("%d receive sites, %d send sites reached holding exactly one item", res.Sources, len(res.Sinks)), strings.Join(res.Problems, "; "))
+		rn4, pre4 := rule("X4")
+		r.Check(len(x4) == 0, rn4, pre4+p.FnKey(fn), p.Pos(fn.Pos()), "tag == table key", strings.Join(dedup(x4), "; "))
+	}
+
+	// ---- X6
+	for _, fn := range p.Funcs() {
+		rel, _ := p.Rel(fn)
+		if rel != "priority" {
+			continue
+		}
+		n := 0
+		for _, ss := range p.SendSites(fn) {
+			if !outRole[p.chanRole(ss.Chan)] || namedOrigin(fnRecvType(fn)) != d.Named {
+				continue
+			}
+			n++
+			rn, pre := rule("X6")
+			key := fmt.Sprintf("%s%s#send.%d", pre, p.FnKey(fn), n)
+			ctxs := ci.Of(ss.In)
+			ok := len(ctxs) > 0
+			for _, x := range ctxs {
+				if x != sched {
+					ok = false
+				}
+			}
+			var bad []string
+			if !ok {
+				bad = append(bad, "output is written outside the scheduler goroutine (contexts: "+strings.Join(shortCtxList(ctxs), ", ")+")")
+			}
+			if !visitedSinks[ss.In] {
+				bad = append(bad, "this output send is not reached from any input receive holding an item (fabricated value)")
+			}
+			r.Check(len(bad) == 0, rn, key, p.InstrPos(ss.In), "scheduler only, fed by an input receive", strings.Join(bad, "; "))
+		}
+	}
+
+	if as == "" {
+		c02handlers(c, p)
+	}
+}
+
+func fnRecvType(fn *ssa.Function) types.Type {
+	if fn.Signature.Recv() == nil {
+		return types.Typ[types.Invalid]
+	}
+	return fn.Signature.Recv().Type()
+}
+
+func shortCtxList(cs []string) []string {
+	var out []string
+	for _, c := range cs {
+		out = append(out, shortCtx(c))
+	}
+	return out
+}
+
+// tableKeyOf: for `T.inputs[k].Channel` returns k.
+func tableKeyOf(s *Sym) *Sym {
+	s = s.StripConv()
+	if s.Op == "field" && s.Args[0].Op == "index" {
+		return s.Args[0].Args[1].StripInst()
+	}
+	return nil
+}
+
+func isInputTableType(t types.Type) bool {
+	m, ok := t.Underlying().(*types.Map)
+	if !ok {
+		return false
+	}
+	nt, ok := m.Elem().(*types.Named)
+	if !ok {
+		return false
+	}
+	st, ok := nt.Underlying().(*types.Struct)
+	if !ok {
+		return false
+	}
+	for i := 0; i < st.NumFields(); i++ {
+		if st.Field(i).Name() == "Channel" {
+			return true
+		}
+	}
+	return false
+}
+
+// c02registration decides X1.
+func c02registration(c *Ctx, p *Prog) {
+	r := c.R
+	var paired func(fn *ssa.Function, key, ch ssa.Value, depth int) (bool, string)
+	paired = func(fn *ssa.Function, key, ch ssa.Value, depth int) (bool, string) {
+		if depth > 6 {
+			return false, "pairing chain too deep"
+		}
+		key, ch = stripChangeType(key), stripChangeType(ch)
+		// range pair
+		if ek, ok := key.(*ssa.Extract); ok {
+			if ec, ok := ch.(*ssa.Extract); ok && ek.Tuple == ec.Tuple && ek.Index == 1 && ec.Index == 2 {
+				if nx, ok := ek.Tuple.(*ssa.Next); ok {
+					if rg, ok := nx.Iter.(*ssa.Range); ok {
+						if _, isMap := rg.X.Type().Underlying().(*types.Map); isMap {
+							// the ranged map must itself be the user's Inputs (or a parameter fed with it)
+							src := p.Sym(rg.X)
+							if par, isPar := rg.X.(*ssa.Parameter); isPar {
+								for _, cs := range p.CallSites(fn) {
+									a := cs.Common().Args[paramIndex(fn, par)]
+									as := p.Sym(a)
+									if !strings.HasSuffix(as.String(), ".Inputs") {
+										return false, fmt.Sprintf("map ranged over is %s at %s, not Opts.Inputs", as, p.InstrPos(cs))
+									}
+								}
+								return true, "range pair over a parameter fed with Opts.Inputs"
+							}
+							if strings.HasSuffix(src.String(), ".Inputs") {
+								return true, "range pair over " + src.String()
+							}
+							return false, "range over " + src.String() + " which is not Opts.Inputs"
+						}
+					}
+				}
+			}
+		}
+		// parameters: every call site must pass a pair
+		if pk, ok := key.(*ssa.Parameter); ok {
+			if pc, ok := ch.(*ssa.Parameter); ok {
+				sites := p.CallSites(fn)
+				if len(sites) == 0 {
+					if obj, _ := fn.Object().(*types.Func); obj != nil && obj.Exported() {
+						return true, "API boundary: the user supplies (channel, priority)"
+					}
+					return false, "no call sites"
+				}
+				for _, cs := range sites {
+					args := cs.Common().Args
+					ok2, why := paired(cs.Parent(), args[paramIndex(fn, pk)], args[paramIndex(fn, pc)], depth+1)
+					if !ok2 {
+						return false, fmt.Sprintf("call at %s: %s", p.InstrPos(cs), why)
+					}
+				}
+				return true, fmt.Sprintf("parameters, paired at all %d call sites", len(sites))
+			}
+		}
+		// fields of one command struct received from a channel
+		sk, sc := p.Sym(key), p.Sym(ch)
+		if sk.Op == "field" && sc.Op == "field" && sk.Args[0].String() == sc.Args[0].String() {
+			base := sk.Args[0]
+			var chanV ssa.Value
+			switch bv := base.V.(type) {
+			case *ssa.Extract:
+				if sel, ok := bv.Tuple.(*ssa.Select); ok {
+					si := p.SelectInfo(sel)
+					for _, cs := range si.Cases {
+						if cs.RecvVal == bv {
+							chanV = cs.State.Chan
+						}
+					}
+				}
+			case *ssa.UnOp:
+				chanV = bv.X
+			}
+			if chanV == nil {
+				return false, "command struct " + base.String() + " does not come from a channel receive"
+			}
+			role := p.chanRole(chanV)
+			// all sends on that channel
+			n := 0
+			for _, g := range p.Funcs() {
+				for _, ss := range p.SendSites(g) {
+					if p.chanRole(ss.Chan) != role {
+						continue
+					}
+					n++
+					sv := p.Sym(ss.Val)
+					k2, c2 := symField(sv, sk.Name), symField(sv, sc.Name)
+					if k2.V == nil || c2.V == nil {
+						return false, fmt.Sprintf("send at %s: command fields not resolved", p.InstrPos(ss.In))
+					}
+					ok2, why := paired(g, k2.V, c2.V, depth+1)
+					if !ok2 {
+						return false, fmt.Sprintf("send at %s: %s", p.InstrPos(ss.In), why)
+					}
+				}
+			}
+			if n == 0 {
+				return false, "no sender for command channel " + role
+			}
+			return true, fmt.Sprintf("command struct received from %s, paired at all %d senders", role, n)
+		}
+		return false, fmt.Sprintf("key %s and channel %s are not a pair", sk, sc)
+	}
+	for _, fn := range p.Funcs() {
+		rel, _ := p.Rel(fn)
+		if rel != "priority" {
+			continue
+		}
+		n := 0
+		for _, b := range fn.Blocks {
+			for _, in := range b.Instrs {
+				mu, ok := in.(*ssa.MapUpdate)
+				if !ok || !isInputTableType(mu.Map.Type()) {
+					continue
+				}
+				n++
+				key := fmt.Sprintf("%s#store.%d", p.FnKey(fn), n)
+				val := p.Sym(mu.Value)
+				// preserved-channel form: base = table[key]
+				if val.Op == "struct" && len(val.Keys) > 0 && val.Keys[0] == "<base>" {
+					base := val.Args[0]
+					okp := base.Op == "index" && base.Args[1].String() == p.Sym(mu.Key).String() && symField(val, "Channel").String() == symField(base, "Channel").String()
+					r.Check(okp, "X1", key, p.InstrPos(mu), "entry rewritten with its Channel preserved", "input table entry is rewritten with a different channel or key: "+val.String())
+					continue
+				}
+				chs := symField(val, "Channel")
+				if chs.V == nil {
+					r.Fail("X1", key, p.InstrPos(mu), "UNDECIDED: cannot resolve the Channel stored: "+val.String())
+					continue
+				}
+				ok2, why := paired(fn, mu.Key, chs.V, 0)
+				r.Check(ok2, "X1", key, p.InstrPos(mu), why, "channel registered under a key it was not supplied with: "+why)
+			}
+		}
+	}
+}
+
+// c02handlers decides X7 for the handler goroutines of the simplified disciplines.
+func c02handlers(c *Ctx, p *Prog) {
+	r := c.R
+	for _, d := range p.Discs() {
+		for _, e := range d.Gos {
+			if !e.Multi {
+				continue
+			}
+			fn := e.Entry
+			r.Funcs[p.FnKey(fn)] = true
+			var problems []string
+			problem := func(f string, a ...any) { problems = append(problems, fmt.Sprintf(f, a...)) }
+			isSrc := func(rs *RecvSite) bool {
+				role := p.chanRole(rs.Chan)
+				return role == "call:Output" || role == "field:output"
+			}
+			type src struct{ rs *RecvSite }
+			byInstr := map[ssa.Instruction]*RecvSite{}
+			byEdge := map[string]*RecvSite{}
+			okOf := map[ssa.Value]*RecvSite{}
+			var the *RecvSite
+			for _, rs := range p.RecvSites(fn) {
+				if !isSrc(rs) {
+					continue
+				}
+				if the != nil {
+					problem("UNDECIDED: more than one receive from the inner output")
+				}
+				the = rs
+				if rs.Case != nil {
+					byEdge[fmt.Sprintf("%d/%d", rs.Case.From.Index, rs.Case.Succ)] = rs
+				} else {
+					byInstr[rs.In] = rs
+				}
+				if rs.Ok != nil {
+					okOf[rs.Ok] = rs
+				}
+			}
+			if the == nil {
+				r.Fail("X7", p.FnKey(fn), p.Pos(fn.Pos()), "UNRESOLVED-ANCHOR: handler does not receive from the inner discipline's output")
+				continue
+			}
+			handles, releases := 0, 0
+			recvd := func(st string) []string {
+				if st == "have" || st == "handled" {
+					problem("handler receives the next item while the previous one is in state %q (Handle or release skipped)", st)
+				}
+				if the.Ok != nil {
+					return []string{"got"}
+				}
+				return []string{"have"}
+			}
+			fieldOfItem := func(fr *Frame, v ssa.Value, name string) bool {
+				s := p.SymFrame(fr, v).StripInst()
+				want := symField(p.Sym(the.Val), name)
+				return s.String() == want.String()
+			}
+			fl := &Flow{P: p}
+			fl.Instr = func(fr *Frame, st string, in ssa.Instruction) []string {
+				if st == "stop" {
+					return nil
+				}
+				if byInstr[in] != nil {
+					return recvd(st)
+				}
+				if call, ok := in.(*ssa.Call); ok {
+					cc := call.Common()
+					if !cc.IsInvoke() && p.Callee(call) == nil {
+						if _, isB := cc.Value.(*ssa.Builtin); !isB && strings.HasSuffix(p.Sym(cc.Value).String(), ".opts.Handle") {
+							handles++
+							if st != "have" {
+								problem("Handle called at %s in state %q (not exactly once per item)", p.InstrPos(in), st)
+							}
+							if !fieldOfItem(fr, cc.Args[len(cc.Args)-1], "Item") {
+								problem("Handle at %s is not given the received item's Item", p.InstrPos(in))
+							}
+							return []string{"handled"}
+						}
+					}
+				}
+				return nil
+			}
+			fl.Call = func(fr *Frame, st string, call ssa.CallInstruction, deferred bool) (bool, []string) {
+				callee := p.Callee(call)
+				if callee != nil && callee.Name() == "Release" && callee.Signature.Recv() != nil && st != "stop" {
+					releases++
+					if st != "handled" {
+						problem("release at %s in state %q (must follow Handle exactly once)", p.InstrPos(call), st)
+					}
+					if !fieldOfItem(fr, call.Common().Args[1], "Priority") {
+						problem("release at %s does not pass the received item's Priority", p.InstrPos(call))
+					}
+					return true, []string{"none"}
+				}
+				return false, nil
+			}
+			fl.Edge = func(fr *Frame, st string, from *ssa.BasicBlock, succ int) []string {
+				if st == "stop" {
+					return nil
+				}
+				if byEdge[fmt.Sprintf("%d/%d", from.Index, succ)] != nil && from.Parent() == fn {
+					return recvd(st)
+				}
+				if _, cs, _ := p.CaseOnEdge(from, succ); cs != nil {
+					if strings.HasPrefix(p.stopRoleOf(cs.State.Chan), "stop:") {
+						return []string{"stop"}
+					}
+					if cs.State.Dir == types.SendOnly {
+						role := p.chanRole(cs.State.Chan)
+						if role == "field:feedback" {
+							releases++
+							if st != "handled" {
+								problem("release at %s in state %q (must follow Handle exactly once)", p.InstrPos(cs.State.Chan.(ssa.Instruction)), st)
+							}
+							if !fieldOfItem(fr, cs.State.Send, "Priority") {
+								problem("release at %s does not send the received item's Priority", p.InstrPos(from.Instrs[len(from.Instrs)-1]))
+							}
+							return []string{"none"}
+						}
+					}
+				}
+				if iff, ok := from.Instrs[len(from.Instrs)-1].(*ssa.If); ok && st == "got" {
+					base, neg := condOf(iff.Cond)
+					if okOf[base] != nil {
+						if (succ == 0) != neg {
+							return []string{"have"}
+						}
+						return []string{"closed"}
+					}
+				}
+				return nil
+			}
+			fl.Exit = func(fr *Frame, st string, ret *ssa.Return) []string {
+				if fr.Parent == nil && (st == "have" || st == "handled") {
+					problem("handler returns at %s with an item in state %q: Handle or the release is skipped on that path", p.InstrPos(ret), st)
+				}
+				return nil
+			}
+			fl.Run(fn, []string{"none"})
+			if handles == 0 {
+				problem("no call of the user's Handle found")
+			}
+			if releases == 0 {
+				problem("no release of the handled item's priority found")
+			}
+			problems = dedup(problems)
+			r.Check(len(problems) == 0, "X7", p.FnKey(fn), p.Pos(fn.Pos()), "receive -> Handle(item) -> release(priority), each exactly once per item", strings.Join(problems, "; "))
+		}
+	}
+}
